@@ -30,7 +30,11 @@ def cases(tier, seed):
     out = []
     w = [3, 3, 3, 2, 2, 2, 3]
     for n in nets:
-        out.append({"net": n, "cls": n["cls"], "history": history.gen_history(rng, history.PLAIN, rng.randint(3, 12), w), "rs": rng.randrange(1 << 30)})
+        c = {"net": n, "cls": n["cls"], "history": history.gen_history(rng, history.PLAIN, rng.randint(3, 12), w), "rs": rng.randrange(1 << 30)}
+        if rng.random() < 0.15:
+            # a tight resource limit: node expansion may raise RuntimeError, the node must then stay unexpanded
+            c["config"] = {"max_motifs_per_node": rng.choice([2, 3, 4])}
+        out.append(c)
     for f in gen.models_up_to(10 if tier == "quick" else 20):
         for rep in range(2 if tier == "quick" else 6):
             out.append({"net": gen.model_net(f), "cls": "model", "history": history.gen_history(rng, history.PLAIN, rng.randint(3, 8), w), "rs": rng.randrange(1 << 30), "diffref": True})
@@ -99,7 +103,9 @@ def run_case(case):
         res.inconclusive = f"aborted: {e}"
         return res.out()
     rch = ref_children_map(rsd)
-    sd = bb.make_sd(net)
+    sd = bb.make_sd(net, case.get("config"))
+    if case.get("config"):
+        res.c("tight_motif_limit_cases")
     trace_sd(sd)
     TRACE.reset()
     TRACE.on = True
@@ -145,6 +151,7 @@ def run_case(case):
         # nodes discovered again through another parent
         res.c("rediscovered_nodes", sum(1 for i in sd.node_ids() if sd.dag.in_degree(i) >= 2))
         if not res.viol:
+            sd.config["max_motifs_per_node"] = 100_000
             ok = W(lambda: sd.expand_bfs(), nodes=len(sd))
             fresh = bb.make_sd(net)
             W(lambda: fresh.expand_bfs())
